@@ -21,8 +21,8 @@ PROPS = {
     "C11": dict(families=["ordered", "transport", "buffers", "mixed", "classic"], kinds=CORE),
     "C12": dict(families=["ordered", "shifted", "transport", "outage", "mixed", "classic"], kinds=CORE),
     "C13": dict(families=["classic", "stoch", "mixed", "buffers"], kinds=CORE + "VFRL"),
-    "C14": dict(families=["classic", "transport", "bigids", "mixed", "shifted"], kinds="GBSOAVFXE"),
-    "C15": dict(families=["classic", "transport", "bigids", "mixed"], kinds="GBSOAVXE"),
+    "C14": dict(families=["classic", "transport", "bigids", "mixed", "shifted", "buffers"], kinds="GBSOAVFXE"),
+    "C15": dict(families=["classic", "transport", "bigids", "mixed", "buffers"], kinds="GBSOAVXE"),
     "C16": dict(families=["classic", "transport", "buffers", "setup", "outage", "stoch", "mixed"], kinds="CGX"),
     "C17": dict(families=["classic", "transport", "buffers", "setup", "outage", "mixed", "bigids"], kinds="CGX"),
     "C18": dict(families=["classic", "transport", "mixed", "buffers"], kinds=CORE + "F"),
